@@ -31,7 +31,9 @@ abbrev Bytes := List UInt8
 /-! ## base64 (RFC 4648 section 4, standard alphabet, with padding) -/
 
 def b64Alphabet : List Char :=
-  "ABCDEFGHIJKLMNOPQRSTUVWXYZabcdefghijklmnopqrstuvwxyz0123456789+/".toList
+  ['A', 'B', 'C', 'D', 'E', 'F', 'G', 'H', 'I', 'J', 'K', 'L', 'M', 'N', 'O', 'P', 'Q', 'R', 'S', 'T', 'U', 'V',
+   'W', 'X', 'Y', 'Z', 'a', 'b', 'c', 'd', 'e', 'f', 'g', 'h', 'i', 'j', 'k', 'l', 'm', 'n', 'o', 'p', 'q', 'r',
+   's', 't', 'u', 'v', 'w', 'x', 'y', 'z', '0', '1', '2', '3', '4', '5', '6', '7', '8', '9', '+', '/']
 
 def encChar (n : Nat) : Char := b64Alphabet.getD n '='
 
@@ -116,7 +118,7 @@ structure Manifest where
   bin : AMap Bytes
   bk : String
   tk : String
-  deriving Inhabited
+  deriving Inhabited, DecidableEq
 
 def keyData : String := "data"
 def keyStringData : String := "stringData"
